@@ -50,7 +50,7 @@ class Mon(X.Monitor):
                 out.append(
                     {
                         'clause': 'C05.withdrawn',
-                        'signature': 'target-still-pending-in-dependent',
+                        'signature': X.dropped_signature(rec, self.purged, 'target-still-pending-in-dependent'),
                         'observed': {'failed': [xtag, T, r['state']],
                                      'dependents_still_pending': {d: post[d]['todo'] for d in left}},
                         'expected': '%s not in the todo of any transitive dependent of %s' % (T, xtag),
